@@ -22,6 +22,7 @@ type BatchReplay struct {
 	Tier     string      `json:"tier"`
 	From     uint64      `json:"from"`
 	Seed     uint64      `json:"seed"`
+	Auto     bool        `json:"auto,omitempty"` // executed by the auto-yield worker
 	Expect   *run.Expect `json:"expect,omitempty"`
 }
 
@@ -59,7 +60,7 @@ func confirmBatch(cfg propCfg, from, seed uint64, want run.Violation) (*BatchRep
 			hi = mid
 		}
 	}
-	return &BatchReplay{Format: 1, Batch: true, Property: *prop, Tier: *tier, From: lo, Seed: seed}, v
+	return &BatchReplay{Format: 1, Batch: true, Property: *prop, Tier: *tier, From: lo, Seed: seed, Auto: cfg.autoBin}, v
 }
 
 // replayBatch handles `check <id> --replay <batch file>`.
@@ -69,6 +70,7 @@ func replayBatch(cfg propCfg, b []byte) int {
 		fmt.Fprintln(os.Stderr, "bad batch replay file:", err)
 		return 2
 	}
+	cfg.autoBin = br.Auto
 	res := runBatch(cfg, br.Tier, br.From, br.Seed)
 	defer os.RemoveAll(scratch)
 	if res == nil {
